@@ -19,17 +19,20 @@ def expected_refusal(op, pre):
     ("ch"|"conn", code). Written from the AMQP reply-code table, not from the model."""
     f = op.split()
     k = f[0]
-    if k not in METH or k in ("CH", "CHCLOSE", "FLOW", "QOS", "CONFIRM", "CANCEL"):
-        if k == "CANCEL":
-            c, h = int(f[1]), int(f[2])
-            ch = pre["chans"].get((c, h))
-            if ch is None or not any(cm["tag"] == f[3] for cm in ch["consumers"]):
-                return ("ch", 404)
+    if k not in METH:
         return None
     c, h = int(f[1]), int(f[2])
     ch = pre["chans"].get((c, h))
     if ch is not None and ch["st"] == 2:
-        return "discarded"
+        return "discarded"        # the broker is closing this channel: everything but close / close-ok is dropped
+    if k != "CH" and (ch is None or ch["st"] in (0, 3)):
+        return ("conn", 504)      # the channel is not open
+    if k in ("CH", "CHCLOSE", "FLOW", "QOS", "CONFIRM", "CANCEL"):
+        if k == "CH" and ch is not None and ch["st"] == 1:
+            return ("conn", 504)
+        if k == "CANCEL" and not any(cm["tag"] == f[3] for cm in ch["consumers"]):
+            return ("ch", 404)
+        return None
     Q = pre["queues"]
     X = pre["exchanges"]
 
